@@ -93,7 +93,7 @@ def recordOfTok (t : String) : Option Record :=
   match t.splitOn "," with
   | a :: st :: rf :: info => do
     let st ← nat? st
-    let rf ← if rf = "z" then some GoTime.zero else (int? rf).map fun k => GoTime.at (timeOfK k)
+    let rf ← if rf = "z" then some FTime.zero else (int? rf).map fun k => FTime.at (timeOfK k)
     let info ← infoOfToks Facts.infoSchema info
     pure ⟨a, st, rf, info⟩
   | _ => Option.none
